@@ -27,7 +27,7 @@ def run(ctx):
     else:
         scen = scenarios(ctx)
         for s in scen:
-            s["boundary"] = s["expr"]["k"] in ("par", "tri", "circle", "interval", "sphere", "union", "cut", "and", "trans", "rot")
+            s["boundary"] = s["expr"]["k"] in ("par", "tri", "circle", "interval", "sphere", "poly", "mesh", "union", "cut", "and", "trans", "rot")
     traces = ctx.drive("c05", scen, timeout=3000)
     ctx.validate("Trace_C05", traces, timeout=3000)
     ctx.rule = RULE
